@@ -8,6 +8,7 @@ returns on the simulated array.  By induction this holds after every history of 
 -/
 import DimModel.Lib.OnDisk
 import DimModel.Proofs.C20
+import DimModel.Proofs.C20Multi
 namespace DimModel
 open Lib OnDisk
 
@@ -290,5 +291,136 @@ example : selCoord [.list [1, 1], .scalar 2] [1, 2] = some [1] := by decide
 /-- appending a record to the stored example -/
 example : (writeRecord (store exDisk) 2 (.num 7) [20, 21, 22]).toOption.map (fun v' => (v'.cells, v'.shape))
     = some ([0, 1, 2, 10, 11, 12, 20, 21, 22], [3, 3]) := by decide
+
+/-! ### multi-file reads (`read_nc` of a list of files / a glob pattern: `_read_multinc`) -/
+section Multi
+open DSV
+
+/-- MULTI-FILE READ: when every file can be read on its own (`mems`: the per-file in-memory Datasets) and these agree
+with the first one on their variables (as sets) and on their dimensions (in order), reading the list of files at once is
+`concatenate_ds` (then `reindex_axis(keys)`) / `stack_ds` of the per-file Datasets, with the same options, the same
+outcome and the same error class -/
+theorem read_multi_eq_memory {α} [Inhabited α] (d nan : α) (files : List (DiskDs α)) (names : Option (List String))
+    (idx : Option FileIndex) (o : MultiOpts) (dk : List Label) (mems : List (Ds α))
+    (hread : files.mapM (fun f => readFile d f names idx) = .ok mems)
+    (hc : Consistent mems = true) :
+    readMulti d nan files names idx o dk = joinMem nan mems o dk := by
+  unfold readMulti joinMem
+  cases files with
+  | nil =>
+    simp only [List.mapM_nil, pure, Except.pure, Except.ok.injEq] at hread
+    subst hread
+    simp [readLoop, bind, Except.bind, pure, Except.pure]
+  | cons f rest =>
+    obtain ⟨m, ms, hm, hms, rfl⟩ := mapM_cons_ok _ f rest mems hread
+    have hall : ms.all (agrees m.keys m.dims) = true := by simpa [Consistent, agrees] using hc
+    have hl := readLoop_some_ok d names idx m.keys m.dims rest ms ([] ++ [m]) hms hall
+    simp only [List.nil_append, List.singleton_append] at hl
+    unfold readLoop
+    simp only [hm, bind, Except.bind, hl, List.nil_append, Option.map_some, List.head?_cons]
+
+/-- ... and when they do not agree the multi-file read is refused (AssertionError): the hypothesis `Consistent` is
+exactly what the loop asserts -/
+theorem read_multi_inconsistent {α} [Inhabited α] (d nan : α) (files : List (DiskDs α)) (names : Option (List String))
+    (idx : Option FileIndex) (o : MultiOpts) (dk : List Label) (mems : List (Ds α))
+    (hread : files.mapM (fun f => readFile d f names idx) = .ok mems)
+    (hc : Consistent mems = false) :
+    readMulti d nan files names idx o dk = .error .assertion := by
+  unfold readMulti
+  cases files with
+  | nil =>
+    simp only [List.mapM_nil, pure, Except.pure, Except.ok.injEq] at hread
+    subst hread
+    simp [Consistent] at hc
+  | cons f rest =>
+    obtain ⟨m, ms, hm, hms, rfl⟩ := mapM_cons_ok _ f rest mems hread
+    have hall : ms.all (agrees m.keys m.dims) = false := by
+      simp only [Consistent] at hc
+      simpa [agrees] using hc
+    have hl := readLoop_some_bad d names idx m.keys m.dims rest ms ([] ++ [m]) hms hall
+    simp only [List.nil_append] at hl
+    unfold readLoop
+    simp only [hm, bind, Except.bind, List.nil_append, hl]
+
+/-- a file that cannot be read on its own makes the multi-file read fail: with that file's error, or with the
+AssertionError of an earlier file that disagrees with the first -/
+theorem read_multi_file_error {α} [Inhabited α] (d nan : α) (files : List (DiskDs α)) (names : Option (List String))
+    (idx : Option FileIndex) (o : MultiOpts) (dk : List Label) (e : Err)
+    (hread : files.mapM (fun f => readFile d f names idx) = .error e) :
+    readMulti d nan files names idx o dk = .error e ∨ readMulti d nan files names idx o dk = .error .assertion := by
+  unfold readMulti
+  rcases readLoop_error d names idx e files none [] hread with h | h
+  · left; simp only [h, bind, Except.bind]
+  · right; simp only [h, bind, Except.bind]
+
+/-- a single name: the variable of the joined Dataset -/
+theorem read_multi_var_eq_memory {α} [Inhabited α] (d nan : α) (files : List (DiskDs α)) (name : String)
+    (idx : Option FileIndex) (o : MultiOpts) (dk : List Label) (mems : List (Ds α))
+    (hread : files.mapM (fun f => readFile d f (some [name]) idx) = .ok mems)
+    (hc : Consistent mems = true) :
+    readMultiVar d nan files name idx o dk
+      = (joinMem nan mems o dk).bind fun ds => match ds.get? name with | some a => .ok a | none => .error .key := by
+  unfold readMultiVar
+  rw [read_multi_eq_memory d nan files (some [name]) idx o dk mems hread hc]
+  rfl
+
+/-! non-vacuity and the counterexample for `Consistent` -/
+def exFileA : Ds Nat :=
+  { axes := [{ name := "t", labels := [.num 1, .num 2], kind := .i }],
+    vars := [("v", { axes := [{ name := "t", labels := [.num 1, .num 2], kind := .i }],
+                     vals := { shape := [2], get := fun j => 10 + j.getD 0 0 }, vkind := .i })] }
+def exFileB : Ds Nat :=
+  { axes := [{ name := "t", labels := [.num 3], kind := .i }],
+    vars := [("v", { axes := [{ name := "t", labels := [.num 3], kind := .i }],
+                     vals := { shape := [1], get := fun j => 20 + j.getD 0 0 }, vkind := .i })] }
+def exFileA2 : Ds Nat :=
+  { axes := [{ name := "t", labels := [.num 1, .num 2], kind := .i }],
+    vars := [("v", { axes := [{ name := "t", labels := [.num 1, .num 2], kind := .i }],
+                     vals := { shape := [2], get := fun j => 40 + j.getD 0 0 }, vkind := .i })] }
+/-- two files with the same variables over the same dimensions - declared in a different order -/
+def exAxT : Axis := { name := "t", labels := [.num 1, .num 2], kind := .i }
+def exAxU : Axis := { name := "u", labels := [.num 3], kind := .i }
+def exFileC : Ds Nat :=
+  { axes := [exAxT, exAxU],
+    vars := [("v", { axes := [exAxT], vals := { shape := [2], get := fun j => 10 + j.getD 0 0 }, vkind := .i }),
+             ("w", { axes := [exAxU], vals := { shape := [1], get := fun _ => 30 }, vkind := .i })] }
+def exFileD : Ds Nat :=
+  { axes := [exAxU, exAxT],
+    vars := [("w", { axes := [exAxU], vals := { shape := [1], get := fun _ => 50 }, vkind := .i }),
+             ("v", { axes := [exAxT], vals := { shape := [2], get := fun j => 60 + j.getD 0 0 }, vkind := .i })] }
+
+abbrev DsObs := List (String × List Label) × List (String × List Nat)
+/-- observation of an outcome: the error (if any), the axes with their labels, the variables with their cells -/
+def obsDs (r : Except Err (Ds Nat)) : List Err × DsObs :=
+  match r with
+  | .error e => ([e], ([], []))
+  | .ok ds => ([], (ds.axes.map fun a => (a.name, a.labels),
+                    ds.vars.map fun kv => (kv.1, (allIdx kv.2.vals.shape).map kv.2.vals.get)))
+def okObs (o : DsObs) : List Err × DsObs := ([], o)
+def errObs (e : Err) : List Err × DsObs := ([e], ([], []))
+
+/-- two files joined along the existing dimension `t` -/
+example : obsDs (readMulti 0 0 [storeDs exFileA, storeDs exFileB] none none { axis := some "t" } [])
+    = okObs ([("t", [.num 1, .num 2, .num 3])], [("v", [10, 11, 20])]) := by decide
+/-- the hypotheses of `read_multi_eq_memory` hold for them -/
+example : Consistent [exFileA, exFileB] = true := by decide
+/-- stacked along a new dimension (keys = the file names) after reading position 1 of `t` in every file -/
+example : obsDs (readMulti 0 0 [storeDs exFileA, storeDs exFileA2] none
+      (some { dim := "t", ix := .list [.num 1], cfg := { indexing := some .position } })
+      { axis := some "file" } [.str "a", .str "b"])
+    = okObs ([("file", [.str "a", .str "b"]), ("t", [.num 2])], [("v", [11, 41])]) := by decide
+
+/-- COUNTEREXAMPLE (`Consistent` is needed): the files declare their dimensions in a different order - the multi-file
+read is refused, while `stack_ds` of the per-file Datasets succeeds -/
+theorem read_multi_consistent_counterexample :
+    Consistent [exFileC, exFileD] = false ∧
+    (obsDs (readMulti 0 0 [storeDs exFileC, storeDs exFileD] none none { axis := some "file" } [.str "c", .str "d"])
+      = errObs .assertion) ∧
+    (obsDs (joinMem 0 [exFileC, exFileD] { axis := some "file" } [.str "c", .str "d"])
+      = okObs ([("file", [.str "c", .str "d"]), ("t", [.num 1, .num 2]), ("u", [.num 3])],
+               [("v", [10, 11, 60, 61]), ("w", [30, 50])])) := by
+  refine ⟨by decide, by decide, by decide⟩
+
+end Multi
 
 end DimModel
